@@ -18,6 +18,7 @@ import (
 	"runtime/pprof"
 	"sort"
 	"strconv"
+	"strings"
 	"testing"
 	"time"
 
@@ -92,7 +93,7 @@ func searchFrom(r *ev.Run, c *cfg, what string, mk func(s *searcher) (gstate, []
 func TestCheck(t *testing.T) {
 	debug.SetGCPercent(150)
 	r := ev.Start("C12", "model_checking")
-	r.SetBudget(ev.Pick(r, 140, 1500))
+	r.SetBudget(ev.Pick(r, 140, 1700))
 	if p := os.Getenv("VERIF_C12_PROF"); p != "" {
 		f, _ := os.Create(p)
 		pprof.StartCPUProfile(f)
@@ -126,8 +127,11 @@ func TestCheck(t *testing.T) {
 	// boundary where the whole alphabet is offered), hence one level less.
 	kA := envInt("VERIF_C12_K", -1)
 	for _, b := range []int{0, 1, 2} {
+		if ob := envInt("VERIF_C12_ONLYBYZ", -1); ob >= 0 && ob != b {
+			continue
+		}
 		c := newCfg(fmt.Sprintf("n4 equal byz=%d R=1", b), eq, b, 1)
-		k := ev.Pick(r, 3, 3)
+		k := ev.Pick(r, 3, 4)
 		if b == 0 {
 			k = ev.Pick(r, 2, 3)
 		}
@@ -174,11 +178,11 @@ func TestCheck(t *testing.T) {
 	r.Set("searches", results)
 	minK := 99
 	for _, x := range results {
-		if x.Config[0] == 'A' {
+		if strings.HasPrefix(x.Config, "A n4 equal") && strings.HasSuffix(x.Config, "R=1") {
 			minK = min(minK, x.K)
 		}
 	}
-	r.Set("A_largest_completed_k_all_configs", int64(minK))
+	r.Set("A_equal_power_R1_largest_k_completed_in_all_configs", int64(minK))
 	var ls []string
 	for l := range outcomes {
 		ls = append(ls, l)
